@@ -16,7 +16,14 @@
 //! extra ops (on top of the C02 ops cfg/gtx/genesis/tx/block):
 //!   freeze            => ok <freezer.number> | panic | err
 //!   restart           => ok <freezer.number>
-//!   query             => frozen=<n> tip=<id> b<id>:<HBTCUPXKM> ... t<id>:<W> ...
+//!   freeze cold       => the same pass, but the accessors are not evaluated before it (store caches
+//!                        stay as cold as they were: the first reads after the wipe go to the rows)
+//!   query             => frozen=<n> tip=<id> b<id>:<HBTCUPXKRDM> ... t<id>:<W> ...
+//!                        H get_block_header, B get_block, T len(get_block_body), C get_cellbase,
+//!                        U get_block_uncles, P get_block_proposal_txs_ids, X get_block_extension,
+//!                        K get_packed_block, R raw COLUMN_BLOCK_HEADER row (get_packed_block_header,
+//!                        never cached), D the extension through the DataLoader of the snapshot (what
+//!                        the load_block_extension syscall calls), M main/side
 //!   crashfreeze       => ok   (oracle only: a child process runs the pass on copies of the node
 //!                              directory and is aborted before/after each of the pass's database
 //!                              writes — `VERIF_CRASH_AT` of the ckb-db hook; every crashed copy is
@@ -46,6 +53,9 @@ fn eval(ex: &Exec) -> (String, BTreeMap<String, String>) {
     let store: &ChainDB = node.store();
     let mut exact = BTreeMap::new();
     let mut parts = vec![];
+    // answers whose content is not the content of the block asked for (reported under the key "!wrong")
+    let mut wrong: Vec<String> = vec![];
+    let snapshot = node.shared.snapshot();
     let frozen = store.freezer().map(|f| f.number()).unwrap_or(0);
     let tip = store.get_tip_header().expect("tip");
     parts.push(format!("frozen={}", frozen));
@@ -72,35 +82,79 @@ fn eval(ex: &Exec) -> (String, BTreeMap<String, String>) {
             }
         };
         exact.insert(format!("get_block_header:b{}", id), hdr.as_ref().map(|x| h8(x.data().as_slice())).unwrap_or("none".into()));
+        // the raw header row (no cache in front of it)
+        let raw = store.get_packed_block_header(&h);
+        exact.insert(format!("get_packed_block_header:b{}", id), raw.as_ref().map(|x| h8(x.as_slice())).unwrap_or("none".into()));
+        if let Some(r) = &raw {
+            if r.as_slice() != orig.header().data().as_slice() {
+                wrong.push(format!("get_packed_block_header:b{}", id));
+            }
+        }
         let body = store.get_block_body(&h);
         exact.insert(format!("get_block_body:b{}", id), format!("{}/{}", body.len(), h8(&body.iter().flat_map(|t| t.hash().as_slice().to_vec()).collect::<Vec<u8>>())));
+        if !body.is_empty() && body.iter().map(|t| t.data().as_slice().to_vec()).collect::<Vec<_>>() != orig.transactions().iter().map(|t| t.data().as_slice().to_vec()).collect::<Vec<_>>() {
+            wrong.push(format!("get_block_body:b{}", id));
+        }
         let txh = store.get_block_txs_hashes(&h);
-        exact.insert(format!("get_block_txs_hashes:b{}", id), format!("{}", txh.len()));
+        exact.insert(format!("get_block_txs_hashes:b{}", id), format!("{}/{}", txh.len(), h8(&txh.iter().flat_map(|t| t.as_slice().to_vec()).collect::<Vec<u8>>())));
+        if !txh.is_empty() && txh != orig.tx_hashes().to_vec() {
+            wrong.push(format!("get_block_txs_hashes:b{}", id));
+        }
+        // (a side block that was just wiped may still answer its tx hashes from the store cache:
+        // caches outlive deletes; judged only while the raw header row is there)
+        if raw.is_some() && txh.len() != body.len() {
+            wrong.push(format!("get_block_txs_hashes-vs-body:b{}", id));
+        }
         let cb = store.get_cellbase(&h);
         let c = match &cb {
             Some(t) if t.hash() == orig.transactions()[0].hash() => '1',
             Some(_) => '!',
             None => '0',
         };
+        if c == '!' {
+            wrong.push(format!("get_cellbase:b{}", id));
+        }
         exact.insert(format!("get_cellbase:b{}", id), cb.map(|t| h8(t.data().as_slice())).unwrap_or("none".into()));
         let un = store.get_block_uncles(&h);
         exact.insert(format!("get_block_uncles:b{}", id), un.as_ref().map(|u| h8(u.data().as_slice())).unwrap_or("none".into()));
+        if un.as_ref().map(|u| u.data().as_slice() != orig.uncles().data().as_slice()).unwrap_or(false) {
+            wrong.push(format!("get_block_uncles:b{}", id));
+        }
         let pr = store.get_block_proposal_txs_ids(&h);
         exact.insert(format!("get_block_proposal_txs_ids:b{}", id), pr.as_ref().map(|u| h8(u.as_slice())).unwrap_or("none".into()));
+        if pr.as_ref().map(|u| u.as_slice() != orig.data().proposals().as_slice()).unwrap_or(false) {
+            wrong.push(format!("get_block_proposal_txs_ids:b{}", id));
+        }
         let xt = store.get_block_extension(&h);
         exact.insert(format!("get_block_extension:b{}", id), xt.as_ref().map(|u| h8(u.as_slice())).unwrap_or("none".into()));
+        if xt.as_ref().map(|u| Some(u.as_slice()) != orig.extension().as_ref().map(|e| e.as_slice())).unwrap_or(false) {
+            wrong.push(format!("get_block_extension:b{}", id));
+        }
+        // what a script sees: the load_block_extension syscall calls ExtensionProvider::get_block_extension
+        // of the snapshot's data loader
+        let dl = {
+            use ckb_traits::ExtensionProvider;
+            snapshot.borrow_as_data_loader().get_block_extension(&h)
+        };
+        exact.insert(format!("data_loader.get_block_extension:b{}", id), dl.as_ref().map(|u| h8(u.as_slice())).unwrap_or("none".into()));
+        if dl.as_ref().map(|u| Some(u.as_slice()) != orig.extension().as_ref().map(|e| e.as_slice())).unwrap_or(false) {
+            wrong.push(format!("data_loader.get_block_extension:b{}", id));
+        }
         let pk = store.get_packed_block(&h);
         let k = match &pk {
             Some(p) if p.as_slice() == orig.data().as_slice() => '=',
             Some(_) => '!',
             None => '-',
         };
+        if k == '!' {
+            wrong.push(format!("get_packed_block:b{}", id));
+        }
         exact.insert(format!("get_packed_block:b{}", id), pk.map(|p| h8(p.as_slice())).unwrap_or("none".into()));
         if main {
             let anc = store.get_ancestor(&tip.hash(), orig.number()).map(|x| x.hash() == h).unwrap_or(false);
             exact.insert(format!("get_ancestor:b{}", id), format!("{}", anc));
         }
-        parts.push(format!("b{}:{}{}{}{}{}{}{}{}{}", id, flag(hdr.is_some()), b, body.len(), c, flag(un.is_some()), flag(pr.is_some()), flag(xt.is_some()), k, if main { 'm' } else { 's' }));
+        parts.push(format!("b{}:{}{}{}{}{}{}{}{}{}{}{}", id, flag(hdr.is_some()), b, body.len(), c, flag(un.is_some()), flag(pr.is_some()), flag(xt.is_some()), k, flag(raw.is_some()), flag(dl.is_some()), if main { 'm' } else { 's' }));
     }
     let mut tids: Vec<u64> = ex.ids.txv.keys().cloned().collect();
     tids.sort();
@@ -123,12 +177,32 @@ fn eval(ex: &Exec) -> (String, BTreeMap<String, String>) {
                 }
             };
             exact.insert(format!("get_transaction_info:t{}", id), format!("{}/{}/{}", h8(info.block_hash.as_slice()), info.block_number, info.index));
+            let wi = catch_unwind(AssertUnwindSafe(|| store.get_transaction_with_info(&t.hash())));
+            exact.insert(
+                format!("get_transaction_with_info:t{}", id),
+                match wi {
+                    Ok(Some((tx, i2))) => {
+                        if tx.data().as_slice() != t.data().as_slice() || i2.block_hash != info.block_hash || i2.index != info.index || i2.block_number != info.block_number {
+                            wrong.push(format!("get_transaction_with_info:t{}", id));
+                        }
+                        format!("{}@{}/{}/{}", h8(tx.data().as_slice()), h8(i2.block_hash.as_slice()), i2.block_number, i2.index)
+                    }
+                    Ok(None) => "none".into(),
+                    Err(_) => "panic".into(),
+                },
+            );
+            if w == '!' {
+                wrong.push(format!("get_transaction:t{}", id));
+            }
             parts.push(format!("t{}:{}", id, w));
         }
     }
     // live cells (never touched by the freezer)
     let d = c02::dump(store, &ex.ids, &node.consensus.genesis_block().difficulty());
     exact.insert("live-cells:all".into(), h8(d.line().as_bytes()));
+    if !wrong.is_empty() {
+        exact.insert("!wrong:all".into(), wrong.join(","));
+    }
     (parts.join(" "), exact)
 }
 
@@ -137,6 +211,8 @@ struct C10<'a> {
     /// answers about main-chain blocks/txs recorded before the first freeze pass touched them
     baseline: BTreeMap<String, String>,
     frozen_seen: u64,
+    /// a pass ran since the last restart (store caches may hold rows that are deleted by now)
+    warm: bool,
 }
 
 impl C10<'_> {
@@ -157,12 +233,60 @@ impl C10<'_> {
         v
     }
 
-    /// pairwise oracle: every answer about a main-chain subject equals the first answer ever given
+    /// pairwise oracle: every answer about a main-chain subject equals the first answer ever given;
+    /// a side-chain block answers the same until its header is removed, and then (cold) answers
+    /// nothing at all and sits at a frozen height; no answer ever carries another block's content
     fn check(&mut self, exact: &BTreeMap<String, String>, when: &str) {
+        const PART: [&str; 8] = ["get_block_body", "get_block_txs_hashes", "get_cellbase", "get_block_uncles", "get_block_proposal_txs_ids", "get_block_extension", "get_packed_block", "data_loader.get_block_extension"];
+        // by-hash accessors: their answers do not depend on which branch is the main chain
+        const BY_HASH: [&str; 11] = ["get_block", "get_block_header", "get_packed_block_header", "get_block_body", "get_block_txs_hashes", "get_cellbase", "get_block_uncles", "get_block_proposal_txs_ids", "get_block_extension", "get_packed_block", "data_loader.get_block_extension"];
         let subjects: std::collections::HashSet<String> = self.main_keys().into_iter().collect();
+        let frozen = self.ex.node.as_ref().unwrap().store().freezer().map(|f| f.number()).unwrap_or(0);
+        if let Some(w) = exact.get("!wrong:all") {
+            self.ex.out.oracle_fail("answer-has-another-blocks-content", &format!("({}) {}", when, w));
+        }
         for (k, v) in exact {
             let (acc, subj) = k.split_once(':').unwrap();
+            if acc == "!wrong" {
+                continue;
+            }
             if !subjects.contains(subj) {
+                // a side-chain block (or a transaction that is not committed on the main chain)
+                if !subj.starts_with('b') || !BY_HASH.contains(&acc) {
+                    continue;
+                }
+                let id: u64 = subj[1..].parse().unwrap();
+                let raw_hdr = exact.get(&format!("get_packed_block_header:{}", subj)).map(|x| x != "none").unwrap_or(false);
+                if raw_hdr {
+                    // still stored: its own header and parts stay readable, unchanged
+                    match self.baseline.get(k) {
+                        None => {
+                            self.baseline.insert(k.clone(), v.clone());
+                        }
+                        Some(old) if old != v => {
+                            self.ex.out.oracle_fail(&format!("side-block-answer-changed:{}", acc), &format!("({}) {} before `{}` now `{}` (header row still present)", when, k, old, v));
+                        }
+                        _ => {}
+                    }
+                } else if when != "cold" {
+                    // observed, not judged here (store caches outlive deletes): get_block(hash) of a
+                    // side block the pass has just wiped, whose header is still in the header cache,
+                    // panics on `expect("block uncles must be stored")`
+                    if acc == "get_block" && v == "panic" {
+                        self.ex.out.count("warm_get_block_panics_on_wiped_side_block_with_cached_header");
+                    }
+                } else {
+                    // removed: only at a frozen height, and completely (warm answers may still come
+                    // from the store caches, which outlive deletes: not judged here)
+                    let n = self.ex.ablocks[&id].number;
+                    if n >= frozen {
+                        self.ex.out.oracle_fail("side-block-removed-above-frozen-height", &format!("{} at height {} freezer.number {}", subj, n, frozen));
+                    }
+                    let empty = v == "none" || v.starts_with("0/");
+                    if !empty {
+                        self.ex.out.oracle_fail(&format!("side-block-partially-removed:{}", acc), &format!("{} answers `{}` without a header row", k, v));
+                    }
+                }
                 continue;
             }
             // get_ancestor / live cells depend on the tip: compare only within one quiescent chain state
@@ -171,17 +295,28 @@ impl C10<'_> {
                     self.baseline.insert(k.clone(), v.clone());
                 }
                 Some(old) if old != v => {
-                    // the accessors that read the kv rows only (no freezer dispatch in store.rs)
-                    let part = ["get_block_body", "get_block_txs_hashes", "get_cellbase", "get_block_uncles", "get_block_proposal_txs_ids", "get_block_extension", "get_packed_block"].contains(&acc);
-                    let class = if part { format!("frozen-block-part-accessor-changed:{}", acc) } else { format!("main-chain-answer-changed:{}", acc) };
+                    // the accessors that read the kv rows only before the repair of F18
+                    let part = PART.contains(&acc);
+                    let class = if part { format!("frozen-block-part-accessor-changed:{}", acc.trim_start_matches("data_loader.")) } else { format!("main-chain-answer-changed:{}", acc) };
                     self.ex.out.oracle_fail(&class, &format!("({}) {} before `{}` now `{}`", when, k, old, v));
                 }
                 _ => {}
             }
-        }
-        // a block looked up by hash never comes back as a different block
-        for (k, v) in exact {
-            let _ = (k, v);
+            // a main-chain block is never without its raw header row, and answers in full
+            if subj.starts_with('b') && BY_HASH.contains(&acc) && (v == "none" || v.starts_with("0/") || v == "panic") {
+                let class = if acc == "get_packed_block_header" || acc == "get_block_header" {
+                    "main-chain-header-missing".to_string()
+                } else if PART.contains(&acc) {
+                    // genesis has no extension
+                    if acc.ends_with("get_block_extension") && subj == "b0" {
+                        continue;
+                    }
+                    format!("frozen-block-part-accessor-changed:{}", acc.trim_start_matches("data_loader."))
+                } else {
+                    format!("main-chain-answer-changed:{}", acc)
+                };
+                self.ex.out.oracle_fail(&class, &format!("({}) {} answers `{}` for a main-chain block", when, k, v));
+            }
         }
     }
 
@@ -195,7 +330,8 @@ impl C10<'_> {
                 // leave initial-block-download: the clock is just after the tip's timestamp
                 let ft = ckb_systemtime::faketime();
                 ft.set_faketime(tip.timestamp() + 1000);
-                let cells_before = eval(&self.ex).1.get("live-cells:all").cloned();
+                let cold = t.get(1) == Some(&"cold");
+                let cells_before = if cold { None } else { eval(&self.ex).1.get("live-cells:all").cloned() };
                 let shared = node.shared.clone();
                 let r = catch_unwind(AssertUnwindSafe(|| shared.verif_freeze_once()));
                 let after = node.store().freezer().map(|f| f.number()).unwrap_or(0);
@@ -235,16 +371,18 @@ impl C10<'_> {
                     self.ex.out.count("freeze_moved_blocks");
                 }
                 self.frozen_seen = after;
+                self.warm = true;
                 let (_, exact) = eval(&self.ex);
-                if exact.get("live-cells:all").cloned() != cells_before {
+                if !cold && exact.get("live-cells:all").cloned() != cells_before {
                     self.ex.out.oracle_fail("chain-view-changed-by-freeze", "live cells / indexes / records dump differs across the freeze pass");
                 }
-                self.check(&exact, "after-freeze-warm");
+                self.check(&exact, if cold { "after-freeze-caches-not-primed" } else { "after-freeze-warm" });
                 self.ex.out.op(line, &ans);
-                self.ex.out.count("freeze");
+                self.ex.out.count(if cold { "freeze_cold" } else { "freeze" });
             }
             "restart" => {
                 self.ex.restart();
+                self.warm = false;
                 let n = self.ex.node.as_ref().unwrap().store().freezer().map(|f| f.number()).unwrap_or(0);
                 if n < self.frozen_seen {
                     self.ex.out.oracle_fail("freezer-lost-blocks-over-restart", &format!("{} -> {}", self.frozen_seen, n));
@@ -254,7 +392,7 @@ impl C10<'_> {
             }
             "query" => {
                 let (l, exact) = eval(&self.ex);
-                self.check(&exact, "cold");
+                self.check(&exact, if self.warm { "warm" } else { "cold" });
                 // hash lookups never return another block; headers only disappear for side-chain blocks
                 for p in l.split(' ') {
                     if let Some((id, f)) = p.split_once(':') {
@@ -265,6 +403,10 @@ impl C10<'_> {
                             }
                             if c[0] == '0' && *c.last().unwrap() == 'm' {
                                 self.ex.out.oracle_fail("main-chain-header-missing", id);
+                            }
+                            // raw COLUMN_BLOCK_HEADER row (third char from the end)
+                            if c[c.len() - 3] == '0' && *c.last().unwrap() == 'm' {
+                                self.ex.out.oracle_fail("main-chain-header-missing", &format!("{} raw row", id));
                             }
                         }
                     }
@@ -277,6 +419,41 @@ impl C10<'_> {
                 self.ex.out.op(line, "ok");
             }
             _ => self.ex.apply(line),
+        }
+    }
+}
+
+impl C10<'_> {
+    fn is_main(&self, id: u64) -> bool {
+        let store = self.ex.node.as_ref().unwrap().store();
+        self.ex.ids.blkv.get(&id).map(|b| store.get_block_number(&b.hash()).is_some()).unwrap_or(false)
+    }
+
+    /// coverage counters: the last frozen block (freezer.number - 1) and the first block that is
+    /// not frozen (freezer.number) carry committed transactions / uncles / proposals
+    fn count_boundaries(&mut self) {
+        let store = self.ex.node.as_ref().unwrap().store();
+        let f = store.freezer().map(|f| f.number()).unwrap_or(0);
+        if f < 2 {
+            return;
+        }
+        let mut hits = vec![];
+        for (n, tag) in [(f - 1, "last_frozen"), (f, "first_unfrozen")] {
+            if let Some(b) = store.get_block_hash(n).and_then(|h| self.ex.ids.blk.get(&h).cloned()).and_then(|id| self.ex.ids.blkv.get(&id).cloned()) {
+                if b.transactions().len() > 1 {
+                    hits.push(format!("boundary_{}_block_with_committed_txs", tag));
+                }
+                if b.uncles().data().len() > 0 {
+                    hits.push(format!("boundary_{}_block_with_uncles", tag));
+                }
+                if b.data().proposals().len() > 0 {
+                    hits.push(format!("boundary_{}_block_with_proposals", tag));
+                }
+                hits.push(format!("boundary_{}_block_queried", tag));
+            }
+        }
+        for h in hits {
+            self.ex.out.count(&h);
         }
     }
 }
@@ -333,6 +510,7 @@ impl C10<'_> {
     fn crash_freeze(&mut self) {
         // baseline answers (cold) and the directory to copy
         self.ex.restart();
+        self.warm = false;
         let (_, base_exact) = eval(&self.ex);
         let frozen_before = self.ex.node.as_ref().unwrap().store().freezer().map(|f| f.number()).unwrap_or(0);
         self.ex.stop_node();
@@ -383,6 +561,9 @@ impl C10<'_> {
                     self.ex.out.oracle_fail("freezer-lost-blocks-after-crash", &format!("{} -> {} (crash {} write {})", frozen_before, n_after_crash, mode, k - c0));
                 }
                 let subjects: std::collections::HashSet<String> = self.main_keys().into_iter().collect();
+                if let Some(w) = exact.get("!wrong:all") {
+                    self.ex.out.oracle_fail("answer-has-another-blocks-content", &format!("(crash {} write {} of the pass) {}", mode, k - c0, w));
+                }
                 for (key, v) in &exact {
                     let (acc, subj) = key.split_once(':').unwrap();
                     if !subjects.contains(subj) {
@@ -390,8 +571,8 @@ impl C10<'_> {
                     }
                     if let Some(old) = base_exact.get(key) {
                         if old != v {
-                            let part = ["get_block_body", "get_block_txs_hashes", "get_cellbase", "get_block_uncles", "get_block_proposal_txs_ids", "get_block_extension", "get_packed_block"].contains(&acc);
-                            let class = if part { format!("frozen-block-part-accessor-changed:{}", acc) } else { format!("main-chain-answer-changed-after-crash:{}", acc) };
+                            let part = ["get_block_body", "get_block_txs_hashes", "get_cellbase", "get_block_uncles", "get_block_proposal_txs_ids", "get_block_extension", "get_packed_block", "data_loader.get_block_extension"].contains(&acc);
+                            let class = if part { format!("frozen-block-part-accessor-changed:{}", acc.trim_start_matches("data_loader.")) } else { format!("main-chain-answer-changed-after-crash:{}", acc) };
                             self.ex.out.oracle_fail(&class, &format!("(crash {} write {} of the pass) {} before `{}` now `{}`", mode, k - c0, key, old, v));
                         }
                     }
@@ -408,7 +589,10 @@ impl C10<'_> {
                         self.ex.out.oracle_fail("crash-recovery-diverges", &format!("crash {} write {}: next pass {:?} ends at freezer.number {} (crash-free: {})", mode, k - c0, r.map(|x| x.is_ok()).ok(), n2, final_number));
                     }
                     let (_, exact2) = eval(&self.ex);
-                    for key in ["get_block", "get_block_header", "get_transaction", "get_transaction_info", "get_ancestor"] {
+                    if let Some(w) = exact2.get("!wrong:all") {
+                        self.ex.out.oracle_fail("answer-has-another-blocks-content", &format!("(after recovery pass) {}", w));
+                    }
+                    for key in ["get_block", "get_block_header", "get_packed_block_header", "get_transaction", "get_transaction_with_info", "get_transaction_info", "get_ancestor", "get_block_body", "get_block_txs_hashes", "get_cellbase", "get_block_uncles", "get_block_proposal_txs_ids", "get_block_extension", "get_packed_block", "data_loader.get_block_extension"] {
                         for (kk, v) in exact2.iter().filter(|(kk, _)| kk.starts_with(&format!("{}:", key))) {
                             let subj = kk.split_once(':').unwrap().1;
                             if subjects.contains(subj) && base_exact.get(kk).map(|o| o != v).unwrap_or(false) {
@@ -435,6 +619,7 @@ fn gen_case(c: &mut C10, rng: &mut Rng) {
     let gcells = rng.range(5, 8);
     c.baseline.clear();
     c.frozen_seen = 0;
+    c.warm = false;
     c.ex.begin_case(&format!("freeze l={} w={}.{} g={}", l, w.0, w.1, gcells));
     let cfg = crate::node::NodeCfg { epoch_len: l, window: w, genesis_cells: gcells, with_pool: false, ..Default::default() };
     c.apply(&format!("cfg {} {} {} {}", l, w.0, w.1, gcells));
@@ -448,6 +633,8 @@ fn gen_case(c: &mut C10, rng: &mut Rng) {
     let f9 = rng.chance(1, 4) || true;
     // one crash enumeration in about every third case (each costs ~5 child processes)
     let crash_round = if rng.chance(1, 3) { Some(rng.below(rounds)) } else { None };
+    // a restart between every two steps once something is frozen (about every fourth case)
+    let restart_heavy = rng.chance(1, 4);
     for round in 0..rounds {
         // grow the main chain, with lighter side branches (some become uncles) on the way
         loop {
@@ -469,33 +656,83 @@ fn gen_case(c: &mut C10, rng: &mut Rng) {
                 }
             }
             g.build(&mut c.ex, rng, tip, true);
+            if restart_heavy && round > 0 && rng.chance(1, 2) {
+                c.apply("restart");
+                c.ex.out_count("restart_between_blocks");
+            }
         }
         c.apply("restart");
         c.apply("query");
         if crash_round == Some(round) {
             c.apply("crashfreeze");
         }
-        c.apply("freeze");
+        // the pass: with the accessors evaluated just before it (warm caches), or not (the first reads
+        // after the wipe find cold caches and must fall back to the freezer)
+        let cold = rng.chance(1, 3);
+        c.apply(if cold { "freeze cold" } else { "freeze" });
+        if rng.chance(1, 2) {
+            // warm answers in the model-compared line as well (side blocks just wiped still answer
+            // from the header cache here, so only when there is none at a newly frozen height)
+            let frozen = c.frozen_seen;
+            let any_side_below = c.ex.ablocks.values().any(|b| b.number >= 1 && b.number < frozen && !c.is_main(b.id));
+            if !any_side_below {
+                c.apply("query");
+                c.ex.out_count("query_warm_after_pass");
+            }
+        }
         c.apply("restart");
         c.apply("query");
+        c.count_boundaries();
         // second pass without new blocks: nothing more to do, must be idempotent
         if rng.chance(1, 2) {
-            c.apply("freeze");
+            c.apply(if rng.chance(1, 2) { "freeze cold" } else { "freeze" });
+            if restart_heavy {
+                c.apply("restart");
+            }
             c.apply("query");
         }
-        // a side block arriving late at an already frozen height — last thing in the case, because
-        // from then on every restart re-submits it (InitLoadUnverified) through get_block(hash),
-        // which hands back the frozen main-chain block of that height: an asynchronous re-insert of
-        // that block's body rows that the line protocol cannot order
-        let tip = c.ex.tip_id();
+        // side blocks arriving late: at the last frozen height (freezer.number - 1), at the first
+        // height that is not frozen (freezer.number; the next pass wipes it), at any frozen height.
+        // Their own header and parts must stay readable (never wiped: the pass only looks at the
+        // heights it has just frozen), and they must not shadow the main-chain block of the height.
         let frozen = c.frozen_seen;
-        if round == rounds - 1 && frozen > 2 && rng.chance(2, 3) {
-            let tipn = c.ex.ablocks[&tip].number;
-            let hgt = rng.range(1, frozen - 1);
-            let p = c.ex.ancestor(tip, tipn - (hgt - 1));
-            if hgt % l != 0 || f9 {
-                g.build(&mut c.ex, rng, p, false);
-                c.ex.out_count("late_side_block_at_frozen_height");
+        if frozen > 2 && rng.chance(3, 4) {
+            let mut heights = vec![];
+            if rng.chance(2, 3) {
+                heights.push(frozen - 1);
+            }
+            if rng.chance(2, 3) {
+                heights.push(frozen);
+            }
+            if rng.chance(1, 2) {
+                heights.push(rng.range(1, frozen - 1));
+            }
+            for hgt in heights {
+                let tip = c.ex.tip_id();
+                let tipn = c.ex.ablocks[&tip].number;
+                if hgt + 1 >= tipn {
+                    continue;
+                }
+                let p = c.ex.ancestor(tip, tipn - (hgt - 1));
+                let busy = rng.chance(1, 2);
+                g.build(&mut c.ex, rng, p, busy);
+                assert_eq!(c.ex.tip_id(), tip, "a late side block must stay lighter than the tip");
+                c.ex.out_count(if hgt + 1 == frozen {
+                    "late_side_block_at_last_frozen_height"
+                } else if hgt == frozen {
+                    "late_side_block_at_first_unfrozen_height"
+                } else {
+                    "late_side_block_at_frozen_height"
+                });
+                if restart_heavy || rng.chance(1, 2) {
+                    c.apply("restart");
+                }
+                c.apply("query");
+            }
+            // a pass right after them (nothing new to freeze: they must survive it)
+            if rng.chance(1, 2) {
+                c.apply("freeze");
+                c.apply("restart");
                 c.apply("query");
             }
         }
@@ -585,13 +822,14 @@ pub fn run(opts: &Opts) {
     {
         let mut ex = Exec::new(&mut out, base.clone());
         ex.ancient = true;
-        let mut c = C10 { ex, baseline: BTreeMap::new(), frozen_seen: 0 };
+        let mut c = C10 { ex, baseline: BTreeMap::new(), frozen_seen: 0, warm: false };
         if let Some(rp) = &opts.replay {
             for l in read_replay_ops(rp) {
                 if l.starts_with("case ") {
                     let label = l.splitn(3, ' ').nth(2).unwrap_or("replay").to_string();
                     c.baseline.clear();
                     c.frozen_seen = 0;
+                    c.warm = false;
                     c.ex.begin_case(&label);
                 } else {
                     if c.ex.case_no == 0 {
